@@ -34,11 +34,20 @@ GraphVerdict(r, s) ==
        \cup If(\E k \in 1..Len(r.atoms) : s.atoms[k].iso # r.atoms[k].i, "isotope")
        \cup If(~BondsAgree(r, s), "bonds")
 
+\* the k-th recorded double-bond relation is what the text says
+CtOK(r, s, k) == CisDefined(s, r.ct[k][1], r.ct[k][2]) /\ (Cis(s, r.ct[k][1], r.ct[k][2], r.ct[k][3], r.ct[k][4]) = (r.ct[k][5] = 1))
+\* situation of known finding C02-ctmap: the double bond is written as a ring-closure bond and one of its substituent
+\* bonds is shared with another double bond that carries configuration (conjugated polyene)
+PolyeneClosure(r, s, k) ==
+  LET a == r.ct[k][1] b == r.ct[k][2] IN
+  /\ IsClosureBond(s, a, b)
+  /\ \E j \in 1..Len(r.ct) : j # k /\ ({r.ct[j][1], r.ct[j][2]} \cap (Subst(s, a, b) \cup Subst(s, b, a)) # {})
+
 StereoVerdict(r, s) ==
   IF Len(s.atoms) # Len(r.atoms) \/ ~BondsAgree(r, s) THEN {}
   ELSE If(\E k \in 1..Len(r.atoms) : r.atoms[k].p # 2 /\ r.atoms[k].hm = 0 /\ TetParity(s, k) # r.atoms[k].p, "parity")
-       \cup If(\E k \in 1..Len(r.ct) : ~(CisDefined(s, r.ct[k][1], r.ct[k][2])
-                                          /\ (Cis(s, r.ct[k][1], r.ct[k][2], r.ct[k][3], r.ct[k][4]) = (r.ct[k][5] = 1))), "cistrans")
+       \cup If(\E k \in 1..Len(r.ct) : ~CtOK(r, s, k) /\ ~PolyeneClosure(r, s, k), "cistrans")
+       \cup If(\E k \in 1..Len(r.ct) : ~CtOK(r, s, k) /\ PolyeneClosure(r, s, k), "cistrans-closure-double-bond-in-polyene")
 
 NumberVerdict(r, s) ==
   IF Len(s.atoms) # Len(r.atoms) THEN {}
